@@ -15,10 +15,16 @@
   ALL configurations, thresholds, chunk sizes, suffixes, routes (`Hint`), destinations and tasks — by
   case analysis and induction, nothing is enumerated.
 
-  The two models genuinely differ in five situations.  Each is excluded by a named hypothesis
+  The two models genuinely differ in four situations.  Each is excluded by a named hypothesis
   (`TaskFits`, `RunOK`) and shown on a concrete witness (`refines_counterexample_*`):
     1. `enotdir`      a strict ancestor of the path is a file/symlink — the step level has no ENOTDIR;
-    2. `update_dir`   an `update` carrying a directory — never planned (`plan_no_update_dir`);
+    2. (`update_dir`, an `update` carrying a directory, was a difference until fix 862af11: the code did nothing.
+       Now it is planned exactly for a destination link standing where the source has a directory
+       (`plan_update_dir_link`), the step list is `unlinkIfSymlink p, create_dir_all p`, and both levels agree —
+       `refines_update_dir_over_link`; the hypothesis `noUpdateDir` is gone from `TaskFits` and `RunOK`.  What stays
+       outside the RUN-level statements is a replaced link WITH planned entries below it: the engine serialises the
+       replacement before everything else (a barrier the free interleaving does not have), `PlanOK.tree` /
+       `RunOK.parents` exclude it — `planOK_excludes_link_with_children`.)
     3. `temp_in_use`  something exists at the working-file path — the known finding
                       `C05/user-file-named-like-temp`, seen from the other side;
     4. `not_a_tree`   the destination map has an entry without its parents — not a file system;
@@ -42,7 +48,7 @@ open SyModel SyModel.Engine
     keeps).  Covers: create / update of files on the full-copy, followed-link, in-place, sparse-seek,
     sparse-blocks and temp + rename routes (any `Hint`, with or without link breaking), directories,
     symlinks, payload-less tasks, delete of a file / link / tree / vanished path, skip, dry run;
-    under `-H` also the first member of a link group.  Hypotheses: `TaskFits` (five fields, each
+    under `-H` also the first member of a link group.  Hypotheses: `TaskFits` (four fields, each
     excluding one genuine difference between the models — see there). -/
 theorem task_refines (cfg : Cfg) (thr ch : Nat) (sfx : String) (h : Hint) (w : World) (t : Task)
     (hf : TaskFits cfg thr sfx h w t) :
@@ -97,11 +103,11 @@ theorem tasks_run_refines (cfg : Cfg) (thr ch : Nat) (sfx : String) (hint : Task
       ofMap (tasks.foldl (execTask cfg noFaults) (initExec dst nextIno)).w.dst :=
   Engine.tasks_run_refines ch h hint nextIno
 
-/-- The planner never emits an `update` that carries a directory, so `RunOK.noUpdateDir` holds for
-    every planned run. -/
-theorem plan_no_update_dir (cfg : Cfg) (scan : List SEntry) (dst : Map DNode) :
-    ∀ t ∈ plan cfg scan dst, t.act = .update → t.payload ≠ .dir :=
-  Engine.plan_no_update_dir cfg scan dst
+/-- The planner emits an `update` that carries a directory only to replace a destination symlink standing where
+    the source has a directory (fix 862af11).  (Until that fix: never — `plan_no_update_dir`.) -/
+theorem plan_update_dir_link (cfg : Cfg) (scan : List SEntry) (dst : Map DNode) :
+    ∀ t ∈ plan cfg scan dst, t.act = .update → t.payload = .dir → ∃ s, dst.get? t.rel = some (.symlink s) :=
+  Engine.plan_update_dir_link cfg scan dst
 
 /-- `RunOK` for a planned run from its four substantial hypotheses and: no task of the plan goes
     through the hard-link protocol (`NoLinkTasks`: exactly the tasks `taskLists` filters out; implied
@@ -113,7 +119,7 @@ theorem plan_runOK (cfg : Cfg) (sfx : String) (scan : List SEntry) (dst : Map DN
     (hparents : ∀ t ∈ plan cfg scan dst, t.writes →
       ∀ q ∈ ancestors t.rel, dst.get? q = none ∨ dst.get? q = some .dir)
     (hnl : NoLinkTasks cfg (plan cfg scan dst)) : RunOK cfg sfx (plan cfg scan dst) dst :=
-  ⟨hok, hfresh, hclosed, hparents, Engine.plan_no_update_dir cfg scan dst, hnl⟩
+  ⟨hok, hfresh, hclosed, hparents, hnl⟩
 
 /-- **Refinement of `run`.**  For a planned run that the deletion guard does not refuse, the
     sequential step-level run ends in `ofMap` of `(run cfg scan dst n).dst`. -/
@@ -213,16 +219,42 @@ theorem run_refines_counterexample_enotdir :
   · exact closed_of_closedB (by decide)
   · exact noLinkTasks_of_hardlinks_off _ rfl
 
-/-- `Refine/update-dir` — `TaskFits.noUpdateDir`.  An `update` that carries a directory: the entry
-    level runs `create_dir_all`, the step level — like `Transferrer::update`, which answers
-    `Ok(None)` for a directory source — does nothing.  The planner never emits it
-    (`plan_no_update_dir`); the entry-level `perform` is more generous than the code here. -/
-theorem refines_counterexample_update_dir :
-    let dst : Map DNode := []
+/-- The former `Refine/update-dir` difference is gone (fix 862af11): an `update` that carries a directory, over a
+    destination symlink `d -> /outside` — the step list is `unlinkIfSymlink d`, `mkdir d`; `TaskFits` holds; both
+    levels end with the directory `d` (the link's text is never used), and `task_refines` applies.  On an empty
+    destination (the old witness) both levels create the directory as well. -/
+theorem refines_update_dir_over_link :
+    let dst : Map DNode := [(["d"], .symlink "/outside")]
     let t : Task := ⟨.update, ["d"], .dir⟩
+    stepsOf cfg0 5000 1000 ".sy.tmp" (dst.get? t.rel) t = [Step.unlinkIfSymlink ["d"], Step.mkdir ["d"]] ∧
+    TaskFits cfg0 5000 ".sy.tmp" {} (w0 dst) t ∧
     ofMap (taskDst cfg0 (w0 dst) t) ["d"] = some .dir ∧
-    applyAll (stepsOf cfg0 5000 1000 ".sy.tmp" (dst.get? t.rel) t) (ofMap dst) ["d"] = none := by
-  refine ⟨by decide, by decide⟩
+    applyAll (stepsOf cfg0 5000 1000 ".sy.tmp" (dst.get? t.rel) t) (ofMap dst) = ofMap (taskDst cfg0 (w0 dst) t) ∧
+    applyAll (stepsOf cfg0 5000 1000 ".sy.tmp" none t) (ofMap []) ["d"] = some .dir ∧
+    ofMap (taskDst cfg0 (w0 []) t) ["d"] = some .dir := by
+  intro dst t
+  have hf : TaskFits cfg0 5000 ".sy.tmp" {} (w0 dst) t :=
+    ⟨by decide, by decide, by decide, by intro _ m n h; cases h⟩
+  exact ⟨by decide, hf, by decide, task_refines_default cfg0 5000 1000 _ (w0 dst) t hf, by decide, by decide⟩
+
+/-- What the RUN-level statements still exclude: a replaced link with a planned entry below it.  The plan is
+    `update d` (directory over the link), `create d/x`; the engine completes the first before it starts the second
+    (barrier, src/sync/mod.rs), the free interleaving of `PlanOK` has no such barrier: `PlanOK.tree` fails (and so
+    does `RunOK.parents`: `d/x` lies below a link of the initial destination).  The entry-level run — which runs
+    tasks in plan order — succeeds: `dir_over_own_link_replaced` (Props/C02). -/
+theorem planOK_excludes_link_with_children :
+    let scan : List SEntry := [⟨["d"], .dir, 0, false⟩, ⟨["d", "x"], .file ⟨1, 10, 200, [], 12⟩ 1, 10, false⟩]
+    let dst : Map DNode := [(["d"], .symlink "/outside")]
+    (plan cfg0 scan dst).map (fun t => (t.act, t.rel)) = [(.update, ["d"]), (.create, ["d", "x"])] ∧
+    ¬ PlanOK (plan cfg0 scan dst) ∧ (run cfg0 scan dst 100).exit = 0 ∧
+    (run cfg0 scan dst 100).dst.get? ["d"] = some .dir ∧
+    ((run cfg0 scan dst 100).dst.get? ["d", "x"]).map embed = some (.file 1 10 200) := by
+  intro scan dst
+  refine ⟨by decide, ?_, by decide, by decide, by decide⟩
+  intro h
+  have := h.tree ⟨.create, ["d", "x"], .file ⟨1, 10, 200, [], 12⟩ 1⟩ (by decide) ⟨.update, ["d"], .dir⟩ (by decide)
+    (by decide) (by decide) (by decide) (by decide)
+  revert this; decide
 
 /-- `Refine/temp-in-use` — `TaskFits.tempFree`.  The user's own file `x.sy.tmp` next to a large `x`
     that is updated through temp + rename: the step level (and the program: finding
@@ -288,7 +320,6 @@ theorem fits_big : TaskFits cfg0 5000 Generated.TEMP_SUFFIX {} (w0 dst)
   parents := by decide
   tree := by decide
   tempFree := by decide
-  noUpdateDir := by decide
   noLinkMember := by intro _ m n _ h; cases h
 
 /-- … and for the creation of `d/a`, whose parent does not exist yet (full copy after `mkdir d`) -/
@@ -297,7 +328,6 @@ theorem fits_da : TaskFits cfg0 5000 Generated.TEMP_SUFFIX {} (w0 dst)
   parents := by decide
   tree := by decide
   tempFree := by decide
-  noUpdateDir := by decide
   noLinkMember := by intro _ m n _ h; cases h
 
 /-- `task_refines` applied: the seven system calls of `create d/a` yield the entry-level result,
@@ -319,7 +349,7 @@ example :
     applyAll (stepsOf cfg0 5000 1000 Generated.TEMP_SUFFIX (dst'.get? t.rel) t) (ofMap dst') = ofMap dst' := by
   intro dst' t
   have hf : TaskFits cfg0 5000 Generated.TEMP_SUFFIX {} (w0 dst') t :=
-    ⟨by decide, by decide, by decide, by decide, by intro _ m n _ h; cases h⟩
+    ⟨by decide, by decide, by decide, by intro _ m n _ h; cases h⟩
   exact ⟨by decide, task_refines_failed cfg0 5000 1000 _ {} (w0 dst') t hf (by decide)⟩
 
 /-- `stale_delete_refines` is about a real situation: `old/x` planned for deletion after `old` -/
